@@ -61,7 +61,10 @@ class AnySpecifier(BaseSpecifier):
         return ""
 
     def __hash__(self) -> int:
-        return hash(str(self))
+        # Must agree with the unbounded RangeSpecifier(), which compares equal to this.
+        from dep_logic.specifiers.range import RangeSpecifier
+
+        return hash(RangeSpecifier())
 
     def __eq__(self, other: object) -> bool:
         if not isinstance(other, BaseSpecifier):
